@@ -151,6 +151,15 @@ func (c13Engine) Gen(seed uint64, idx int, tier string) interface{} {
 		sc.Layout.Lead = r.Pick([]string{" ", "\n", "\n\n  ", "\t", "  \n "})
 		sc.Layout.Trail = r.Pick([]string{"", " ", "\n", " \n\n"})
 	}
+	if r.Chance(1, 40) {
+		// a fault far from the origin: beyond line or column 65536 (far columns
+		// rarely: the library draws the caret line in quadratic time, a second per error)
+		if r.Chance(1, 75) {
+			sc.Layout.Pad = [2]int{0, 65530 + r.Intn(5000)}
+		} else {
+			sc.Layout.Pad = [2]int{65530 + r.Intn(5000), r.Intn(3)}
+		}
+	}
 	for attempt := 0; ; attempt++ {
 		sc.Env = healthyEnv(r)
 		cfg := GenCfg{Budget: r.Range(8, 44), Calls: true, Dyn: true, Failing: true, Strings: true, Closures: r.Chance(3, 4), Maps: r.Chance(1, 2),
